@@ -64,6 +64,13 @@ class WorkingHours:
         # If no hours are set, onShift will fall back to project default
         self._custom_hours_set = False
 
+    def deep_clone(self) -> "WorkingHours":
+        """Clone for attribute inheritance: own table, same project."""
+        clone = WorkingHours(self.project)
+        clone._hours = {day: list(intervals) for day, intervals in self._hours.items()}
+        clone._custom_hours_set = self._custom_hours_set
+        return clone
+
     def set_hours(self, days: list[str], ranges: list[tuple[str, str]]) -> None:
         """
         Set working hours for specific days.
